@@ -207,9 +207,11 @@ func normalizeTuning(t *TuningOptions) {
 func (n *AbsfsNFS) UpdatePolicyOptions(newPolicy PolicyOptions) error {
 	n.policyMu.Lock()
 	defer n.policyMu.Unlock()
+	vhook("up.begin", "new", &newPolicy)
 
 	old := n.policy.Load()
 	if old.Squash != newPolicy.Squash {
+		vhook("up.reject", "new", &newPolicy)
 		return fmt.Errorf("cannot change Squash mode at runtime")
 	}
 
@@ -217,6 +219,7 @@ func (n *AbsfsNFS) UpdatePolicyOptions(newPolicy PolicyOptions) error {
 	// (in-flight requests) release. New requests using TryRLock will fail
 	// and return NFSERR_JUKEBOX so clients retry.
 	n.policyRWMu.Lock()
+	vhook("up.drained", "new", &newPolicy)
 
 	// Swap to new policy (deep copy slices/pointers)
 	snapshot := newPolicy
@@ -236,6 +239,7 @@ func (n *AbsfsNFS) UpdatePolicyOptions(newPolicy PolicyOptions) error {
 		snapshot.TLS = newPolicy.TLS.Clone()
 	}
 	n.policy.Store(&snapshot)
+	vhook("up.swapped", "pol", &snapshot)
 
 	// Update rate limiter while still holding the write lock (H2 fix)
 	if newPolicy.EnableRateLimiting {
@@ -244,8 +248,11 @@ func (n *AbsfsNFS) UpdatePolicyOptions(newPolicy PolicyOptions) error {
 		n.rateLimiter = nil
 	}
 
+	vhook("up.limiter", "lim", n.rateLimiter)
+
 	// Resume accepting requests
 	n.policyRWMu.Unlock()
+	vhook("up.released", "new", &newPolicy)
 
 	return nil
 }
